@@ -5,27 +5,28 @@ Import ListNotations.
 
 (* ================= SP ================= *)
 (* forwarded packets of one flow are in arrival order *)
-Theorem C08_sp_flow_fifo : forall (r : Q) (tbl : list (Z * Z)) acts s tr f,
+Theorem C08_sp_flow_fifo : forall (r : Q) (cm : Z -> Z) (fl : list Z) (tbl : list (Z * Z)) acts s tr f,
   0 < r ->
-  sp_run r tbl acts = Some (s, tr) ->
+  sp_run r cm fl tbl acts = Some (s, tr) ->
   exists rest, filter (is_flow f) (tr_puts tr) = filter (is_flow f) (tr_fwds tr) ++ rest.
 Proof. exact sp_flow_fifo. Qed.
 Print Assumptions C08_sp_flow_fifo.
 
-(* per flow, as lists in order: packets put in = packets forwarded ++ packets held (hence as multisets over all flows; each forwarded packet is the very record that was put in); only packets of configured flows are accepted *)
-Theorem C08_sp_conserves : forall (r : Q) (tbl : list (Z * Z)) acts s tr,
+(* per class and per flow, as lists in order: packets put in = packets forwarded ++ packets held (hence as multisets over all flows; each forwarded packet is the very record that was put in); only packets whose class is configured are accepted *)
+Theorem C08_sp_conserves : forall (r : Q) (cm : Z -> Z) (fl : list Z) (tbl : list (Z * Z)) acts s tr,
   0 < r ->
-  sp_run r tbl acts = Some (s, tr) ->
-  (forall f, filter (is_flow f) (tr_puts tr) = filter (is_flow f) (tr_fwds tr) ++ held_flow s f)
-  /\ (forall p, In p (tr_puts tr) -> In (flow p) (flows (sp_cfg true r tbl))).
+  sp_run r cm fl tbl acts = Some (s, tr) ->
+  (forall k, filter (is_class (sp_cfg true r cm fl tbl) k) (tr_puts tr) = filter (is_class (sp_cfg true r cm fl tbl) k) (tr_fwds tr) ++ held_class (sp_cfg true r cm fl tbl) s k)
+  /\ (forall f, filter (is_flow f) (tr_puts tr) = filter (is_flow f) (tr_fwds tr) ++ held_flow (sp_cfg true r cm fl tbl) s f)
+  /\ (forall p, In p (tr_puts tr) -> In (cm (flow p)) (classes (sp_cfg true r cm fl tbl))).
 Proof. exact sp_conserves. Qed.
 Print Assumptions C08_sp_conserves.
 
 (* in a state with nothing enabled and no deadline nothing is held, all counters are 0, everything put in was forwarded, and the loop is not in its error state *)
-Theorem C08_sp_drained : forall (r : Q) (tbl : list (Z * Z)) acts s tr,
-  0 < r -> (forall f p, In (f, p) tbl -> (0 < p)%Z) ->
-  sp_run r tbl acts = Some (s, tr) -> urgent (sp_cfg true r tbl) s = false -> (forall p dl, mchild s <> CTx p dl) ->
-  (forall f, held_flow s f = []) /\ (forall f, mqc s f = 0%Z /\ mqb s f = 0%Z) /\ mcur s = None /\
+Theorem C08_sp_drained : forall (r : Q) (cm : Z -> Z) (fl : list Z) (tbl : list (Z * Z)) acts s tr,
+  0 < r -> (forall k p, In (k, p) tbl -> (0 < p)%Z) ->
+  sp_run r cm fl tbl acts = Some (s, tr) -> urgent (sp_cfg true r cm fl tbl) s = false -> (forall p dl, mchild s <> CTx p dl) ->
+  (forall k, held_class (sp_cfg true r cm fl tbl) s k = []) /\ (forall f, mqc s f = 0%Z /\ mqb s f = 0%Z) /\ mcur s = None /\
   (forall f, filter (is_flow f) (tr_puts tr) = filter (is_flow f) (tr_fwds tr)) /\ mpc s <> PSpin.
 Proof. exact sp_drained. Qed.
 Print Assumptions C08_sp_drained.
@@ -41,15 +42,16 @@ Print Assumptions C08_rr_flow_fifo.
 Theorem C08_rr_conserves : forall (r : Q) (fl : list Z) acts s tr,
   0 < r ->
   rr_run r fl acts = Some (s, tr) ->
-  (forall f, filter (is_flow f) (tr_puts tr) = filter (is_flow f) (tr_fwds tr) ++ held_flow s f)
-  /\ (forall p, In p (tr_puts tr) -> In (flow p) (flows (rr_cfg r fl))).
+  (forall k, filter (is_class (rr_cfg r fl) k) (tr_puts tr) = filter (is_class (rr_cfg r fl) k) (tr_fwds tr) ++ held_class (rr_cfg r fl) s k)
+  /\ (forall f, filter (is_flow f) (tr_puts tr) = filter (is_flow f) (tr_fwds tr) ++ held_flow (rr_cfg r fl) s f)
+  /\ (forall p, In p (tr_puts tr) -> In ((flow p)) (classes (rr_cfg r fl))).
 Proof. exact rr_conserves. Qed.
 Print Assumptions C08_rr_conserves.
 
 Theorem C08_rr_drained : forall (r : Q) (fl : list Z) acts s tr,
   0 < r ->
   rr_run r fl acts = Some (s, tr) -> urgent (rr_cfg r fl) s = false -> (forall p dl, mchild s <> CTx p dl) ->
-  (forall f, held_flow s f = []) /\ (forall f, mqc s f = 0%Z /\ mqb s f = 0%Z) /\ mcur s = None /\
+  (forall k, held_class (rr_cfg r fl) s k = []) /\ (forall f, mqc s f = 0%Z /\ mqb s f = 0%Z) /\ mcur s = None /\
   (forall f, filter (is_flow f) (tr_puts tr) = filter (is_flow f) (tr_fwds tr)) /\ mpc s <> PSpin.
 Proof. exact rr_drained. Qed.
 Print Assumptions C08_rr_drained.
@@ -65,15 +67,16 @@ Print Assumptions C08_wrr_flow_fifo.
 Theorem C08_wrr_conserves : forall (r : Q) (ws : list (Z * Z)) acts s tr,
   0 < r ->
   wrr_run r ws acts = Some (s, tr) ->
-  (forall f, filter (is_flow f) (tr_puts tr) = filter (is_flow f) (tr_fwds tr) ++ held_flow s f)
-  /\ (forall p, In p (tr_puts tr) -> In (flow p) (flows (wrr_cfg r ws))).
+  (forall k, filter (is_class (wrr_cfg r ws) k) (tr_puts tr) = filter (is_class (wrr_cfg r ws) k) (tr_fwds tr) ++ held_class (wrr_cfg r ws) s k)
+  /\ (forall f, filter (is_flow f) (tr_puts tr) = filter (is_flow f) (tr_fwds tr) ++ held_flow (wrr_cfg r ws) s f)
+  /\ (forall p, In p (tr_puts tr) -> In ((flow p)) (classes (wrr_cfg r ws))).
 Proof. exact wrr_conserves. Qed.
 Print Assumptions C08_wrr_conserves.
 
 Theorem C08_wrr_drained : forall (r : Q) (ws : list (Z * Z)) acts s tr,
   0 < r -> (forall f w, In (f, w) ws -> (0 < w)%Z) ->
   wrr_run r ws acts = Some (s, tr) -> urgent (wrr_cfg r ws) s = false -> (forall p dl, mchild s <> CTx p dl) ->
-  (forall f, held_flow s f = []) /\ (forall f, mqc s f = 0%Z /\ mqb s f = 0%Z) /\ mcur s = None /\
+  (forall k, held_class (wrr_cfg r ws) s k = []) /\ (forall f, mqc s f = 0%Z /\ mqb s f = 0%Z) /\ mcur s = None /\
   (forall f, filter (is_flow f) (tr_puts tr) = filter (is_flow f) (tr_fwds tr)) /\ mpc s <> PSpin.
 Proof. exact wrr_drained. Qed.
 Print Assumptions C08_wrr_drained.
